@@ -1023,3 +1023,42 @@ func genAutoLines(r *RNG, w *World) []AutoLine {
 	}
 	return out
 }
+
+// perennialStand replaces the rotation by a perennial stand (lucerne, grassland) that is cut several times and follows
+// itself, the first cut soon after an autumn sowing (little mass on the field), cuts left on the field or removed.
+func perennialStand(r *RNG, w *World) {
+	per := r.PickS([]string{"AA", "GR"})
+	if paramTables.Crops[per] {
+		y := w.Start().Year()
+		sow := DayOf(y, 9, r.Range(5, 30))
+		if sow <= w.Start()+3 {
+			sow = DayOf(y+1, 9, r.Range(5, 30))
+		}
+		rot := w.Rot[:1]
+		har := sow + Day(r.Range(25, 70))
+		for k := 0; k < r.Range(2, 4); k++ {
+			rot = append(rot, RotEntry{Crop: per, Sow: sow, Harvest: har, Rex: r.PickI([]int{0, 0, 100})})
+			sow = har + 1
+			if k == 0 {
+				har = DayOf(har.Year()+1, 6, r.Range(1, 28))
+			} else {
+				har = har + Day(r.Range(40, 90))
+			}
+		}
+		w.Rot = rot
+		w.Till = nil
+		w.Cfg.End = rot[len(rot)-1].Harvest + Day(r.Range(10, 60))
+		if w.Weather.LastDay < DayOf(w.Cfg.End.Year()+1, 12, 31) {
+			w.Weather.LastDay = DayOf(w.Cfg.End.Year()+1, 12, 31)
+		}
+		var f []FertEvent
+		for _, e := range w.Fert {
+			if e.Day < w.Cfg.End {
+				f = append(f, e)
+			}
+		}
+		w.Fert = f
+		fixAnnual(w)
+		w.Auto = genAutoLines(r, w)
+	}
+}
